@@ -16,6 +16,7 @@ import P2P.Model.Termini
 import P2P.Proofs.TerminiLemmas
 import P2P.Model.ChargeTable
 import P2P.Proofs.ChargeTableAll
+import P2P.Proofs.ChargeLinkLemmas
 
 namespace P2P.Props.C02
 open P2P P2P.Termini P2P.State P2P.Proofs.Termini
@@ -132,6 +133,34 @@ theorem parse_neutral_cterm_pro_refuted :
      | some entries, some r => cellSum entries (atomsFor r)
      | _, _ => none) = some (-12 * 10 ^ (P2P.Gen.FFCharges.unitExp - 2)) :=
   parse_cpro
+
+/-- **the two specifications agree**: for every amino-acid residue description whose name is its
+class name or a state name of its class, the formal charge C02 states on the residue
+(`formalCharge`: side-chain state + terminus, from patches, flags and atoms) is the formal charge
+its look-up name stands for (`formalOfName`, the specification `charge_table` is checked against).
+So `charge_table` speaks about residues, not only about names. -/
+theorem formal_by_name (r : RInfo) (ha : isAmino r = true)
+    (hname : r.name = r.cls ∨ (r.cls, r.name) ∈ P2P.Proofs.ChargeLink.stateNames) (D : Str)
+    (hD : lookupName r = some D) : formalCharge r = some (formalOfName D) :=
+  P2P.Proofs.ChargeLink.formal_by_name_core r ha hname D hD
+
+/-- **residue form of the charge table**: a residue looked up under the name `D` of an amino-acid
+definition of the table, in a force field that parameterises every atom of that state, carries
+exactly its formal charge (as an integer in units of 10^-unitExp e) -/
+theorem residue_charge_from_table (r : RInfo) (ha : isAmino r = true)
+    (hname : r.name = r.cls ∨ (r.cls, r.name) ∈ P2P.Proofs.ChargeLink.stateNames)
+    (d : ResDef) (hd : d ∈ aminoDefs) (hD : lookupName r = some d.name)
+    (ff : String × List (Str × List (Str × Int))) (hff : ff ∈ P2P.Gen.FFCharges.all)
+    (he : excluded.contains d.name = false) (hk : knownNonIntegral.contains (ff.1, d.name) = false)
+    (entries : List (Str × Int)) (hent : ff.2.lookup d.name = some entries)
+    (q : Int) (hq : cellSum entries (atomsFor d) = some q) :
+    ∃ f : Int, formalCharge r = some f ∧ q = unit * f := by
+  refine ⟨formalOfName d.name, formal_by_name r ha hname d.name hD, ?_⟩
+  have h := charge_table ff hff d hd he hk
+  unfold cellOK at h
+  rw [hent] at h
+  simp only [hq] at h
+  exact of_decide_eq_true h
 
 example : formalOfName (str "NEUTRAL-CGLU") = -1 ∧ formalOfName (str "NLYS") = 2 ∧ formalOfName (str "CASH") = -1 ∧
     formalOfName (str "HID") = 0 ∧ formalOfName (str "CYX") = 0 := by decide
